@@ -282,6 +282,14 @@ def main():
     run_histories(chk, stats)
     chk.sample({'compile_history': [TRUNCATIONS[2], 'on all']})
     chk.sample({'run_history': ['complete', 'complete', 'stopped-after-k-events', 'complete']})
+    # two scripts at the same time (harness/concurrent.py): each must compute what it computes alone
+    import concurrent as _cc
+    _problems, _n = _cc.isolation_cases(chk.rng, 25 if chk.thorough else 3)
+    stats['concurrent_pairs'] = _n
+    chk.count(_n)
+    for _p in _problems:
+        if _p['kind'] in ('expr', 'printf', 'fault'):
+            chk.violation('jobs-not-independent:concurrent', _p['what'], _p['replay'])
     chk.coverage['distribution'] = stats
     chk.coverage['rule'] = (
         'sequences of 2-6 compile requests (generated valid scripts, texts truncated inside loop / '
